@@ -258,15 +258,15 @@ Section Tree.
 End Tree.
 
 (* ---- the theorem about the machine ---------------------------------------------- *)
-Theorem machine_tree : forall (visit : option visit_fn) defs id k items,
+Theorem machine_tree : forall (visit : option visit_fn) rr defs id k items,
   let root := ONode id k items in
   is_tree root = true -> NoDup (ids root) ->
   exists v m lg,
-    remap visit defs root = Done v m lg
+    remap (lift visit) rr defs root = Done v m lg
     /\ erase v = rebuild (vfun visit) [] (erase root)
     /\ evisits lg = calls_opt visit [] (erase root).
 Proof.
-  intros visit defs id k items root Ht Hnd.
+  intros visit rr defs id k items root Ht Hnd.
   rewrite machine_is_recursion. unfold srb_root, root.
   destruct (srb impl_blank visit defs true [] KNone (ONode id k items) [] []) as [[v m] lg] eqn:E.
   exists v, m, lg. split; [reflexivity|].
